@@ -61,6 +61,29 @@ Proof.
   - apply IH.
 Qed.
 
+(* every record of a log is a call of step *)
+Lemma erun_steps c step acts l x :
+  Forall (fun r => step (r_l r) (r_x r) = (r_l' r, r_x' r, r_rc r)) (steps_of (elog c step acts l x)).
+Proof.
+  apply (erun_invariant c step (fun _ _ => True) (fun r => step (r_l r) (r_x r) = (r_l' r, r_x' r, r_rc r))); auto.
+  intros l0 x0 _. split; [|exact I]. cbn [r_l r_x r_l' r_x' r_rc]. now destruct (step l0 x0) as [[? ?] ?].
+Qed.
+
+Lemma Forall_and {A} (P Q : A -> Prop) l : Forall P l -> Forall Q l -> Forall (fun a => P a /\ Q a) l.
+Proof. intros HP. induction HP; intros HQ; inversion HQ; subst; constructor; auto. Qed.
+
+(* a step that pops the external queue is one whose decision is to take an external event *)
+Lemma pop_is_dequeue c step acts l x :
+  (forall l x, qeffect c (dequeues l x) x (snd (fst (step l x)))) ->
+  Forall (fun r => external_popped r -> takes_external r) (steps_of (elog c step acts l x)).
+Proof.
+  intros Hq. eapply Forall_impl; [|apply erun_steps]. intros r Hr Hn.
+  unfold takes_external, r_deq. specialize (Hq (r_l r) (r_x r)). rewrite Hr in Hq. cbn [fst snd] in Hq.
+  destruct (dequeues (r_l r) (r_x r)); auto; exfalso; apply Hn; cbn [qeffect] in Hq.
+  - destruct Hq as (ai & ae & _ & H & _). now exists ae.
+  - destruct Hq as (_ & ai & ae & _ & H & _). now exists ae.
+Qed.
+
 (* ------------------------------------------------------------------ one step, generically *)
 
 Section Generic.
